@@ -3,6 +3,7 @@ from gen_util import *
 import core, os, tempfile, shutil
 PID = "C17"
 DRIVER = "drv_heap"
+MATRIX_QUICK = [core.CONFIG_BZERO]   # both zeroing back-ends on every run
 MATRIX = core.MATRIX_ZEROING     # thorough tier: -O0/-O2/-O3, clang, explicit_bzero on/off, mlock on/off
 DRIVER_FLAGS = ("-w",)
 RULE = ("every secret-handling entry point (get_hmac pointer / vector-key / secure_buffer-key forms, HmacContext incl. re-init, pbkdf2 vector / locked / secure_buffer-input / caller-buffer forms, pepper incl. its "
